@@ -321,6 +321,33 @@ def shard_gaps_and_growth(args):
             acc.case(True, key=("gaptwin", repr(g1), repr(g2), columns), sample=case)
             acc.transitions += 1
             check(acc, f, fc, columns, case)
+    # a plain str that carries SGR sequences (the terminal string of a formatted value) is formatted text, not words with escape bytes
+    from curtsies.formatstring import fmtstr as _fmtstr
+
+    for si_, spec in enumerate([C.scale_spec(40, "words"), C.scale_spec(90, "words"), (("red word", (("fg", 31),)), (" and ", ()), ("bold blue", (("bold", True), ("fg", 34)))), (("x", (("bg", 44),)), ("  ", (("bg", 44),)), ("yy zz", (("underline", True),)))]):
+        k += 1
+        if k % 4 != idx:
+            continue
+        f = C.build(spec)
+        s_ = str(f)
+        fc2 = C.cells(_fmtstr(s_))
+        if fc2 != C.cells(f):
+            continue
+        for columns in (3, 7, 20, 200):
+            case = {"text": s_[:80], "columns": columns, "as": "str holding the terminal string of a formatted value"}
+            acc.case(True, key=("termstr", si_, columns), sample=case)
+            acc.transitions += 1
+            check(acc, s_, fc2, columns, case)
+    # limits far beyond any text
+    for columns in (2 ** 31 - 1, 2 ** 31, 2 ** 32 - 1, 2 ** 32, 2 ** 63, 2 ** 64 + 1, 10 ** 30):
+        if idx != 0:
+            break
+        for spec in (C.scale_spec(40, "words"), (("one", ()),), ((" a  b ", (("fg", 31),)),)):
+            f = C.build(spec)
+            case = {"f": C.show_spec(spec[:3]), "columns": columns}
+            acc.case(True, key=("hugecol", columns, len(spec)), sample=case)
+            acc.transitions += 1
+            check(acc, f, C.cells(f), columns, case)
     # (b) growing log
     for base_len in (40, 650, 1500):
         for shape in ("words", "one", "runs7"):
